@@ -38,6 +38,8 @@ pub enum Basis {
     Mix4(usize, usize, usize, usize),
     /// exp(-8 (x - j/2)^2) : a parameter-free bump (models with many basis functions)
     Bump(usize),
+    /// sum_i exp(-a_i x) / (x + i + 1), i = 0..7 : a function of EIGHT parameters, not symmetric in any two of them
+    Sum8([usize; 8]),
 }
 
 impl Basis {
@@ -60,6 +62,7 @@ impl Basis {
             "zero" => Basis::Zero,
             "mix4" => Basis::Mix4(ix(1), ix(2), ix(3), ix(4)),
             "bump" => Basis::Bump(ix(1)),
+            "sum8" => Basis::Sum8([ix(1), ix(2), ix(3), ix(4), ix(5), ix(6), ix(7), ix(8)]),
             _ => panic!("unknown basis {name}"),
         }
     }
@@ -67,6 +70,7 @@ impl Basis {
         match *self {
             Basis::Const | Basis::Lin | Basis::Affine | Basis::Zero | Basis::Bump(_) => vec![],
             Basis::Mix4(p, q, r, t) => vec![p, q, r, t],
+            Basis::Sum8(ix) => ix.to_vec(),
             Basis::ExpDecay(p) | Basis::ExpRate(p) | Basis::Rat(p) | Basis::Cos(p) | Basis::Sq(p) => {
                 vec![p]
             }
@@ -95,6 +99,13 @@ impl Basis {
                 let c = T::of_f64(0.5 * j as f64);
                 Float::exp(-T::of_f64(8.0) * (x - c) * (x - c))
             }
+            Basis::Sum8(_) => {
+                let mut v = T::zero();
+                for i in 0..8 {
+                    v = v + Float::exp(-a[i] * x) / (x + T::of_f64(i as f64 + 1.0));
+                }
+                v
+            }
         }
     }
     /// derivative with respect to the i-th own parameter (position in deps())
@@ -122,6 +133,7 @@ impl Basis {
             (Basis::Mix4(..), 1) => -x * Float::exp(-a[0] * x) * Float::sin(a[1] * x),
             (Basis::Mix4(..), 2) => x * Float::exp(-a[3] * x),
             (Basis::Mix4(..), 3) => -a[2] * x * x * Float::exp(-a[3] * x),
+            (Basis::Sum8(_), i) if i < 8 => -x * Float::exp(-a[i] * x) / (x + T::of_f64(i as f64 + 1.0)),
             _ => panic!("no such derivative"),
         }
     }
@@ -359,6 +371,25 @@ pub fn build_separable<T: HScalar>(spec: &ModelSpec<T>) -> SeparableModel<T> {
                     b = b.partial_deriv(nm[pos].clone(), move |x: &DVector<T>, a: T, c: T, d: T, e: T| {
                         x.map(|xi| quant(bk.dvalue(pos, xi, &[a, c, d, e]), q))
                     });
+                }
+            }
+            8 => {
+                let nm: Vec<String> = deps.iter().map(|&d| names[d].clone()).collect();
+                let b0 = bs.clone();
+                b = b.function(
+                    nm.clone(),
+                    move |x: &DVector<T>, a0: T, a1: T, a2: T, a3: T, a4: T, a5: T, a6: T, a7: T| {
+                        x.map(|xi| quant(b0.value(xi, &[a0, a1, a2, a3, a4, a5, a6, a7]), q))
+                    },
+                );
+                for pos in 0..8 {
+                    let bk = bs.clone();
+                    b = b.partial_deriv(
+                        nm[pos].clone(),
+                        move |x: &DVector<T>, a0: T, a1: T, a2: T, a3: T, a4: T, a5: T, a6: T, a7: T| {
+                            x.map(|xi| quant(bk.dvalue(pos, xi, &[a0, a1, a2, a3, a4, a5, a6, a7]), q))
+                        },
+                    );
                 }
             }
             _ => unreachable!(),
